@@ -22,7 +22,7 @@ TAIL_B = bytes(8)
 
 
 def jobs(tier):
-    return [(tier, c) for c in defs.chunks(defs.space(tier, "medium"), 16)]
+    return [("dynunions", tier)] + [(tier, c) for c in defs.chunks(defs.space(tier, "medium"), 16)]
 
 
 def _streams(buf: bytes, p: int):
@@ -34,6 +34,89 @@ def _streams(buf: bytes, p: int):
     s3 = io.BufferedReader(io.BytesIO(buf))
     s3.seek(p)
     yield "BufferedReader", s3
+
+
+def deref_all(obj):
+    """Dereference every pointer reachable in a parsed value: list of ('ok', plain value) | ('exc', exception class name)."""
+    from dissect.cstruct import Pointer, Structure
+
+    out = []
+
+    def walk(v, depth=0):
+        if isinstance(v, Pointer):
+            try:
+                t = v.dereference()
+                out.append(("ok", repr(impl.norm(t)) if not isinstance(t, Pointer) else int(t)))
+                if isinstance(t, Pointer) and depth < 2:
+                    walk(t, depth + 1)
+            except Exception:  # noqa: BLE001
+                # which exception an unreachable address raises depends on the stream object (BytesIO cannot seek past 2**63): only
+                # "raises" is compared
+                out.append(("exc",))
+        elif isinstance(v, Structure):
+            for n in type(v).fields:
+                walk(getattr(v, n), depth)
+        elif isinstance(v, list):
+            for x in v:
+                walk(x, depth)
+
+    walk(obj)
+    return out
+
+
+DYN_UNIONS = [
+    "union DU { uint8 n; char s[]; };",
+    "union DU { uint16 w; char s[]; uint8 b; };",
+    "union DU { char s[]; uint32 q; };",
+    "struct dyn_t { uint8 n; char d[n]; }; union DU { dyn_t d; uint16 w; };",
+    "union DU { uint8 n; uleb128 v; };",
+]
+
+
+def dynamic_unions(tier) -> JobResult:
+    """Unions with a dynamically sized member: no extent model is assumed - pure differential: parsing at stream position p equals
+    parsing the bytes from p onward on their own (same value, consumed = p + that extent), stand-alone and as a later struct member."""
+    from dissect.cstruct import cstruct
+
+    res = JobResult()
+    payloads = [b"\x03abc\x00\x07\x08\x09\x0a", b"\x00\x00\x00\x00\x01\x02", b"\x85\x01AB\x00CD\x00", b"\x02hi\x00there\x00\x00"]
+    for text in DYN_UNIONS:
+        full = text + "\nstruct W { uint8 h; uint16 g; DU u; uint8 t; };"
+        for endian in "<>":
+            for compiled in (False, True):
+                cs = cstruct(endian=endian)
+                try:
+                    cs.load(full, compiled=compiled)
+                except Exception as e:  # noqa: BLE001
+                    res.violations.append(Violation("dynunion:load-raises", "dynunion:load-raises", {"dynunion": text}, f"{full!r}: {e!r}"))
+                    continue
+                res.transitions += 1
+                for T in (cs.DU, cs.W):
+                    for pl in payloads:
+                        s0 = io.BytesIO(pl + TAIL_A)
+                        try:
+                            v0 = T(s0)
+                            base = (repr(impl.norm(v0)), s0.tell())
+                        except Exception as e:  # noqa: BLE001
+                            base = ("exc", type(e).__name__)
+                        for p in (1, 2, 5, 16):
+                            for kind, stream in _streams(JUNK_A[:p] + pl + TAIL_A, p):
+                                res.evaluations += 1
+                                res.states += 1
+                                res.transitions += 1
+                                res.nontrivial += 1
+                                try:
+                                    v = T(stream)
+                                    got = (repr(impl.norm(v)), stream.tell() - p)
+                                except Exception as e:  # noqa: BLE001
+                                    got = ("exc", type(e).__name__)
+                                if got != base:
+                                    res.violations.append(Violation("dynunion:position-dependent", f"dynunion:position-dependent|{T.__name__}",
+                                        {"dynunion": text, "type": T.__name__, "endian": endian, "compiled": compiled, "offset": p, "payload": pl.hex()},
+                                        f"{full!r} {T.__name__} {endian} compiled={compiled}: at offset {p} via {kind}: {got}; the same bytes on their own: {base}"))
+                                    break
+    res.samples.append({"dynamic_unions": DYN_UNIONS, "offsets": [1, 2, 5, 16]})
+    return res
 
 
 def check_case(names, endian, align, res: JobResult, tier="quick", only_input=None):
@@ -49,6 +132,7 @@ def check_case(names, endian, align, res: JobResult, tier="quick", only_input=No
     res.transitions += 2
     eof_tail = sc.has_eof_tail(st)
     offsets = [p for p in OFFSETS if not align or p % al == 0]
+    has_ptr = any("*" in n for n in names)
 
     def viol(kind, detail, reader, inp, **kw):
         feats = sc.features(names, endian, align, reader)
@@ -106,16 +190,26 @@ def check_case(names, endian, align, res: JobResult, tier="quick", only_input=No
                 ("cs.read(name,bytes)", lambda: cs.read("S", buf)),
                 ("cs.read(name,stream)", lambda: cs.read("S", io.BytesIO(buf))),
             ]
+            first_deref = None
             for fname, fn in forms:
                 res.evaluations += 1
                 res.transitions += 1
                 try:
-                    got = impl.norm(fn())
+                    obj = fn()
+                    got = impl.norm(obj)
                 except Exception as e:  # noqa: BLE001
                     viol("form:raises", f"{fname} on {buf.hex()}: {impl.exc_sig(e)} {e!r}", reader, inp, form=fname)
                     continue
                 if not same(got, expect):
                     viol("form:value", f"{fname} on {buf.hex()}: {got} != model {expect}", reader, inp, form=fname)
+                    continue
+                if has_ptr:
+                    # "all give the same result" includes what the pointers of the result dereference to
+                    dr = deref_all(obj)
+                    if first_deref is None:
+                        first_deref = (fname, dr)
+                    elif dr != first_deref[1]:
+                        viol("form:dereference-differs", f"{fname} on {buf.hex()}: pointers dereference to {dr}, via {first_deref[0]} to {first_deref[1]}", reader, inp, form=fname)
             res.traces += 1
         # ---- histories: consecutive reads on one stream (state = stream position)
         if not eof_tail and len(oks) >= 2:
@@ -144,6 +238,8 @@ def check_case(names, endian, align, res: JobResult, tier="quick", only_input=No
 
 
 def run(job) -> JobResult:
+    if job[0] == "dynunions":
+        return dynamic_unions(job[1])
     res = JobResult()
     tier, chunk = job
     for names in chunk:
@@ -154,6 +250,8 @@ def run(job) -> JobResult:
 
 
 def replay(case):
+    if "dynunion" in case:
+        return [v for v in dynamic_unions("thorough").violations if v.case == case]
     res = JobResult()
     check_case(tuple(case["atoms"]), case["endian"], case["align"], res, "thorough", only_input=case.get("input"))
     return res.violations
